@@ -20,6 +20,8 @@ type WCall struct {
 	Implicit bool `json:"implicit,omitempty"`
 	// Superfluous is set for a WriteHeader that arrives after the commit.
 	Superfluous bool `json:"superfluous,omitempty"`
+	// At is the length of the request's trace when the call arrived (orders calls against trace items).
+	At int `json:"-"`
 }
 
 // SimWriter is the simulated client connection: a recording, fault-injecting
@@ -34,6 +36,14 @@ type SimWriter struct {
 	faults    []WFault
 	nWrites   int
 	Fired     []string // fault kinds that actually fired
+	rec       *ReqRec
+}
+
+func (w *SimWriter) add(c WCall) {
+	if w.rec != nil {
+		c.At = len(w.rec.Trace)
+	}
+	w.Calls = append(w.Calls, c)
 }
 
 func NewSimWriter(f []WFault) *SimWriter {
@@ -58,10 +68,10 @@ func (w *SimWriter) commit(code int) {
 func (w *SimWriter) WriteHeader(code int) {
 	taskYield(siteWCall)
 	if w.Committed {
-		w.Calls = append(w.Calls, WCall{Op: "WriteHeader", Code: code, Superfluous: true})
+		w.add(WCall{Op: "WriteHeader", Code: code, Superfluous: true})
 		return
 	}
-	w.Calls = append(w.Calls, WCall{Op: "WriteHeader", Code: code})
+	w.add(WCall{Op: "WriteHeader", Code: code})
 	w.commit(code)
 }
 
@@ -82,7 +92,7 @@ func (w *SimWriter) Write(b []byte) (int, error) {
 		c.Err = err.Error()
 	}
 	w.Body = append(w.Body, b[:n]...)
-	w.Calls = append(w.Calls, c)
+	w.add(c)
 	return n, err
 }
 
@@ -93,7 +103,7 @@ func (w *SimWriter) Flush() {
 		c.Implicit = true
 		w.commit(200)
 	}
-	w.Calls = append(w.Calls, c)
+	w.add(c)
 }
 
 // applyWFault is the fault plan: what the k-th underlying Write of size bytes returns.
